@@ -285,7 +285,11 @@ CLAIMED["C16"] = dict(
          "open element (C16_balance; the one unbalanced End-phase state after an empty <script/> root is part of the "
          "invariant and harmless). With the committed fixes the created elements - prefix, namespace, local name, "
          "attribute namespaces, order, values - equal the recursive scope resolver S.resolve for EVERY sequence of lexed "
-         "tags and other tokens, no side condition (C16_resolve_source_fixed = tokenizer duplicate step + builder); an "
+         "tags and other tokens, no side condition (C16_resolve_source_fixed = tokenizer duplicate step + builder); the same "
+         "holds for the create_element calls in the sink-call trace of the HANDLE-LEVEL model of the builder (Model/XmlTBH.lean, "
+         "compared literally with the real XmlTreeBuilder's trace by `xmltb trace`): Props/C16Xml.lean proves a simulation between "
+         "the two models (bsim_step, no hypothesis) and C16_xml_trace_resolve_source: those calls carry exactly S.resolve's names "
+         "and attributes; an "
          "attribute is dropped only if an earlier attribute of the tag has the same qualified / expanded name "
          "(C16_tok_dropped_only_if_fixed, C16_attr_dropped_only_if, C16_attrs_sublist); process_qname splits exactly at a "
          "single inner colon (C16_splitQName_*). The pre-fix behaviour is kept as named configurations TokCfg.code / "
